@@ -27,6 +27,14 @@ QUERY = ['A[] not deadlock', 'E<> P.L and g > 0', 'A<> g == 1', 'E[] b', 'g > 0 
          'E[<=10; 100](max: g)', 'simulate [<=10; 5] {g, x}', 'simulate [<=10] {g} : 2 : b', 'control: A[] b', 'control: A<> g > 0', '{g, b} control: A[] true', '{} control: A[] true',
          'strategy s1 = minE(x)[<=20] {g} -> {x} : <> b', 'strategy s2 = control: A<> b', 'A[] b under s1', 'saveStrategy("f", s1)', 'strategy s3 = loadStrategy {g} -> {x} ("f")',
          'Pr[<=10](<> b) >= Pr[<=10](<> g > 1)', 'E<> exists (i : int[0,2]) a[i] == 1', 'minE(g)[<=20] {b} -> {x} : <> b', 'A[] forall (i : int[0,1]) g > i imply b', 'Pr[#<=20](<> b)']
+# queries that are built with a diagnostic or are ill-typed: a query is type-checked whatever building it reported (names of the base model: g b x a s f P L;
+# PS is a process set with two free parameters)
+QUERY_SEM = ['E<> f() > 0', 'E<> f(1) > 0', 'E<> f(1, g) > 0', 'E<> f(1, g, 2, 3) > 0', 'E<> f(1, 2, 3) > 0', 'E<> abs() > 0', 'E<> abs(1, 2) > 0', 'E<> fmax(1) > 0.0', 'E<> g(1) > 0', 'E<> b() ', 'E<> x(1) > 0',
+             'E<> a(1) > 0', 'E<> s(1) == 1', 'E<> P(1).L', 'E<> P().L', 'E<> PS().L', 'E<> PS(1).L', 'E<> PS(1, 0).L', 'E<> PS(1, 0, 1).L', 'E<> PS(1, 0, 1, 1, 1).L', 'E<> PS(b, x).L', 'E<> PS(1, 0).nosuch', 'E<> PS(1, 0)',
+             'E<> PS.L', 'E<> PS[1].L', 'E<> PS(1)(0).L', 'E<> g.v > 0', 'E<> f.v > 0', 'E<> P.nosuch', 'E<> P.L.v', 'E<> a[1][2] > 0', 'E<> g[1] > 0', 'E<> f[1] > 0', 'E<> (g + 1)(2) > 0', 'E<> P[1].L', 'A[] f', 'E<> P',
+             'E<> a', 'E<> s', 'A[] x', 'sup: f', 'inf: P', 'Pr[<=f](<> b)', 'Pr[<=10](<> f)', 'E<> forall (i : int[0,1]) f() > i', 'simulate [<=10] {f(), g}', 'E<> a[f()] > 0', 'E<> (b ? f() : 1) > 0', 'E<> f(f(), g, 1) > 0',
+             'E<> s.a(1) > 0', 'E<> P.v(1) > 0', 'E<> sum (i : int[0,1]) f(i) > 0', 'A[] f(1, g, 2) > 0 imply f()', 'E<> x.v > 0', 'E<> c(1)', 'E<> d[0](1)', 'control: A[] f()', '{f()} control: A[] b', 'E[<=10; 100](max: f())',
+             'strategy q1 = minE(f())[<=20] {g} -> {x} : <> b', 'E<> P.L(1)', 'E<> deadlock(1)', 'E<> exists (i : sc) f(i) > 0', 'E<> 1(2) > 0', 'E<> "s"(1)', "E<> x'(1) > 0", 'E<> (f)(1, g, 2) > 0', 'E<> f(1, 2 + g, 2) > 0']
 XTA = [
     'clock x; int g; chan c;\nprocess P(int k) { int v; state A { x <= 3 }, B, C { x <= 2 ; 3 }; commit B; urgent C; init A;\n trans A -> B { select i : int[0,2]; guard g == i; sync c!; assign g = 1, v = i; }, B -u-> C { probability 2; }, -> A { }, C -> A { assign x = 0; }; }\nP1 = P(1); system P1;',
     'int g;\nprocess Q() { state L; branchpoint b1; init L; trans L -> b1 { }, b1 -> L { probability 1; assign g = 0; }; }\nsystem Q;',
